@@ -551,6 +551,13 @@ func verbatimSPDX(c *Ctx) {
 						e = x.Args[0]
 						continue
 					}
+					if sel, ok := x.Fun.(*ast.SelectorExpr); ok && len(x.Args) == 0 && strings.HasPrefix(sel.Sel.Name, "Get") {
+						if f, _ := typeutil.Callee(d.pkg.TypesInfo, x).(*types.Func); f != nil && f.Pkg() != nil && inPkgs(f.Pkg().Path(), getterPkgs) {
+							// generated nil-safe getter: same value as the field
+							e = &ast.SelectorExpr{X: sel.X, Sel: ast.NewIdent(strings.TrimPrefix(sel.Sel.Name, "Get"))}
+							continue
+						}
+					}
 					if f, _ := typeutil.Callee(d.pkg.TypesInfo, x).(*types.Func); f != nil && f.Name() == "MakeDocElementID" && len(x.Args) == 2 {
 						if v, ok := constOf(d.pkg, x.Args[0]); ok && v.isStr() && v.str() == "" {
 							e = x.Args[1]
